@@ -55,8 +55,8 @@ PROPS = {
                 outside=["Address for Solution (postcard serialisation is third-party and not modelled) and therefore from_set's plumbing", "injectivity of the fixed-width concatenation is by construction (32-byte chunks), not a separate query", "SHA-256 itself"]),
     "C18": dict(claim="Wire codecs: decode_mutations(encode_mutations(ms)) = ms with the documented layout and sizes (<=2 mutations, key/value <=2 words), decode_predicate(encode_predicate(p)) = p (<=2 nodes, <=3 edges, any edge_start incl. the leaf marker), decode_mutation equals the documented layout on every word string <=6, and node_edges returns exactly the documented sub-range.",
                 outside=["word/byte/hex conversions, Display/FromStr and serde round trips are not yet encoded", "derive-generated serde impls, serde_json and postcard are outside"]),
-    "C19": dict(claim="The Rust plumbing around the secp256k1 / ed25519 primitives, with the primitives as uninterpreted functions: sign::contract::sign then recover returns the signer's key and verify accepts, for every contract with <=1 predicate and every salt, because both sides hash the same content address; recover / verify / RecoverSecp256k1 return an error (never panic) for every 64-byte signature and every recovery-id byte incl. ids >3; the VM op feeds the library exactly the popped 4+8+1 words in order and pushes encode::public_key's 5-word layout; encode::signature/public_key have the documented word layout. Each run also executes a native differential (real keys, real library) of contract sign/recover/verify and of the three VM crypto ops against the sign/hash crates.",
-                outside=["axiom A1: recover(m, sign(m, sk)) = pubkey(sk) and serialize_compact/from_compact are inverse (libsecp256k1 contract)", "axiom A2: RecoveryId is valid iff 0..=3", "ECDSA / SHA-256 internals and therefore 'after any change to the predicates or salt the recovered key differs' (collision / forgery resistance of the primitives); the harness only shows the changed content reaches the hash input", "contracts with >1 predicate"]),
+    "C19": dict(claim="The Rust plumbing around the secp256k1 / ed25519 primitives, with the primitives as uninterpreted functions: sign::contract::sign then recover returns the signer's key and verify accepts, for every contract with <=2 predicates (one node, one edge, symbolic fields) and every salt, also when the verifier is given the predicates in the other order, because both sides hash the same content address (ascending predicate addresses, salt); recover / verify / RecoverSecp256k1 return an error (never panic) for every 64-byte signature and every recovery-id byte incl. ids >3; the VM op feeds the library exactly the popped 4+8+1 words in order and pushes encode::public_key's 5-word layout; encode::signature/public_key have the documented word layout. Each run also executes a native differential (real keys, real library) of contract sign/recover/verify and of the three VM crypto ops against the sign/hash crates.",
+                outside=["axiom A1: recover(m, sign(m, sk)) = pubkey(sk) and serialize_compact/from_compact are inverse (libsecp256k1 contract)", "axiom A2: RecoveryId is valid iff 0..=3", "ECDSA / SHA-256 internals and therefore 'after any change to the predicates or salt the recovered key differs' (collision / forgery resistance of the primitives); the harness only shows the changed content reaches the hash input", "contracts with >2 predicates (the sort itself is decided for <=3 addresses by h_hash::addrs_canonical)"]),
 }
 
 NOT_APPLICABLE = {
